@@ -59,13 +59,19 @@ Qed.
 
 Lemma adecls_inside D p : forall en mm, ainside D p en = true -> Forall (win_in 0 D) (adecls p en mm).
 Proof.
-  induction p using pt_ind'; intros en mm Hi; cbn [adecls ainside] in *; try constructor.
+  revert D. induction p using pt_ind'; intros D en mm Hi; cbn [adecls ainside] in *; try constructor.
   - now apply eval_decls_inside.
   - apply andb_prop in Hi as [H1 H2]. apply Forall_app. split; [now apply eval_decls_inside|].
     rewrite Forall_forall in H. rewrite forallb_forall in H2. apply Forall_flat_map. apply Forall_forall.
     intros s Hs. apply H; auto.
   - apply andb_prop in Hi as [H1 H3]. apply andb_prop in H1 as [H1 H2].
     apply Forall_app. split; [now apply eval_decls_inside|]. apply Forall_app. split; auto.
+  - auto.
+  - (* a reversed part: mirrored about its own duration, which does not exceed the composite's *)
+    apply andb_prop in Hi as [H1 H3]. apply andb_prop in H1 as [H1 H2].
+    apply Qcleb_true in H1. apply Qcleb_true in H2.
+    eapply Forall_weaken; [apply Forall_mirror; now apply IHp | |]; qc2q; lra.
+  - auto.
   - auto.
 Qed.
 
